@@ -253,10 +253,13 @@ theorem showPrim_of_hasTy (t : Ty) (v : V) (h : hasTy t v = true) : ∃ txt, sho
 /-- one property: the fields written by `encodeField` encode the value back -/
 theorem specFormProp_encodeField (fields : List (Str × List Str)) (k : Str) (p : RS) (e : Option Enc) (v : V)
     (ts : List Str) (henc : FormEncodable p e v) (hf : encodeField e v = some ts) (hl : lookup k fields = some ts) :
-    specFormProp fields k p e = some (some v) := by
+    specDecl fields k p e = some (some v) := by
+  unfold FormEncodable at henc
+  obtain ⟨hnc, henc⟩ := henc
+  unfold specDecl
+  simp only [hnc, Bool.false_eq_true, if_false]
   unfold specFormProp
   rw [hl]
-  unfold FormEncodable at henc
   cases hty : p.ty with
   | none => simp [hty] at henc
   | some t =>
@@ -364,6 +367,7 @@ theorem lookup_encodeForm (encs : List (Str × Enc)) (val : Str → Option V) (p
 theorem encodeField_of_encodable (p : RS) (e : Option Enc) (v : V) (h : FormEncodable p e v) :
     ∃ ts, encodeField e v = some ts := by
   unfold FormEncodable at h
+  replace h := h.2
   cases hty : p.ty with
   | none => simp [hty] at h
   | some t =>
